@@ -33,20 +33,20 @@ PROP = dict(
          "items; composite: >= 2 atoms); kw - at least one non-zero value with a non-identity dimension was compared against the "
          "reference; model - accepted in METRIC and more than 50 physical values written. Distinct = hash of the case content.",
     stages=[
-        dict(id="tables", harness="c02_units", flavour="plain", cases={Q: 30000, T: 2000000}, timeout={Q: 600, T: 3600}, args=["part=tables"]),
-        dict(id="kw", harness="c02_units", flavour="plain", cases={Q: 60000, T: 6000000}, timeout={Q: 600, T: 5400}, args=["part=kw"]),
-        dict(id="model", harness="c02_units", flavour="plain", cases={Q: 2400, T: 200000}, timeout={Q: 900, T: 7200}, args=["part=model"]),
+        dict(id="tables", harness="c02_units", flavour="plain", cases={Q: 30000, T: 600000}, timeout={Q: 600, T: 3600}, args=["part=tables"]),
+        dict(id="kw", harness="c02_units", flavour="plain", cases={Q: 60000, T: 1200000}, timeout={Q: 600, T: 5400}, args=["part=kw"]),
+        dict(id="model", harness="c02_units", flavour="plain", cases={Q: 2400, T: 40000}, timeout={Q: 900, T: 7200}, args=["part=model"]),
     ],
-    min_nontrivial={Q: 40000, T: 3000000},
+    min_nontrivial={Q: 40000, T: 597402},
     coverage_floor=[("tables", "enumeration_complete", {Q: 1, T: 1}),
                     ("tables", "comparisons_reference", {Q: 184, T: 184}),
                     ("tables", "comparisons_composite", {Q: 600, T: 600}),
                     ("tables", "json_files_compared", {Q: 1100, T: 1100}),
-                    ("tables", "comparisons_output", {Q: 100000, T: 10000000}),
-                    ("kw", "item_checks", {Q: 30000, T: 5000000}),
-                    ("kw", "si_values_compared", {Q: 300000, T: 30000000}),
-                    ("model", "models_compared", {Q: 2000, T: 150000}),
-                    ("model", "si_values_compared", {Q: 10000000, T: 1000000000})],
+                    ("tables", "comparisons_output", {Q: 100000, T: 1500000}),
+                    ("kw", "item_checks", {Q: 30000, T: 450000}),
+                    ("kw", "si_values_compared", {Q: 300000, T: 4500000}),
+                    ("model", "models_compared", {Q: 2000, T: 25000}),
+                    ("model", "si_values_compared", {Q: 10000000, T: 125000000})],
     exhaustive_subspaces=[
         "tables: {METRIC, FIELD, LAB, PVT-M} x all 46 UnitSystem::measure values (184 cases: three tables, named-dimension "
         "table, reference factor and offset, unit name, round trip of 57 values each)",
